@@ -158,7 +158,7 @@ pub fn canon_fbig<R: Round, const B: Word>(v: &FBig<R, B>) -> Result<(), String>
     if (sig % &b).is_zero() {
         return Err(format!("significand divisible by the base: {}", text_fbig(v)));
     }
-    if v.precision() != 0 && r.digits() > v.precision() + 1 {
+    if v.precision() != 0 && r.digits() > v.precision().saturating_add(1) {
         return Err(format!("{} digits at precision {}: {}", r.digits(), v.precision(), text_fbig(v)));
     }
     Ok(())
@@ -420,6 +420,141 @@ pub fn exec_med(w: &mut World, op: &Op, rest: &str, env: &mut Env) {
                 }
             }
         }
+        // ---------------- token level: a self-describing value tree near the expected shape, mutated, handed to the
+        // real Deserialize impls through ciborium::Value's Deserializer (strings owned, maps with duplicate or
+        // missing or extra keys, wrong token types, sequences instead of maps, bytes vs text, out-of-range integers)
+        "tokens" => {
+            use ciborium::Value as V;
+            let mut x = Rng64(op.n as u64 ^ 0x9E3779B97F4A7C15 ^ ((op.m as u64) << 32));
+            let int_bytes = |v: &IBig| -> V {
+                // the binary form of the integers: little-endian magnitude, sign in the length parity
+                let (s, words) = v.as_sign_words();
+                let mut b = le_bytes_of_words(words);
+                if (s == Sign::Positive && b.len() & 1 == 1) || (s == Sign::Negative && b.len() & 1 == 0) {
+                    b.push(0);
+                }
+                V::Bytes(b)
+            };
+            let n = int_bytes(&w.i[a]);
+            let d = V::Bytes(le_bytes_of_words(w.u[b].as_words()));
+            let weird = |x: &mut Rng64, base: V| -> V {
+                match x.next() % 12 {
+                    0 => V::Null,
+                    1 => V::Bool(true),
+                    2 => V::Text("12".into()),
+                    3 => V::Float(1.5),
+                    4 => V::Array(vec![base.clone(), base]),
+                    5 => V::Integer((-1i64).into()),
+                    6 => V::Integer(u64::MAX.into()),
+                    7 => V::Bytes(vec![]),
+                    8 => V::Bytes(vec![0, 0, 0, 0, 0, 0, 0, 0, 0]),
+                    9 => V::Map(vec![]),
+                    _ => base,
+                }
+            };
+            let tree = match pool {
+                4 | 5 => {
+                    let mut fields = vec![(V::Text("numerator".into()), weird(&mut x, n.clone())), (V::Text("denominator".into()), weird(&mut x, d.clone()))];
+                    match x.next() % 8 {
+                        0 => fields.push((V::Text("numerator".into()), n.clone())),
+                        1 => fields.push((V::Text("extra".into()), V::Null)),
+                        2 => {
+                            fields.pop();
+                        }
+                        3 => fields.swap(0, 1),
+                        4 => fields[1].0 = V::Bytes(b"denominator".to_vec()),
+                        5 => fields[0].0 = V::Integer(0.into()),
+                        _ => {}
+                    }
+                    if x.next() % 3 == 0 {
+                        V::Array(fields.into_iter().map(|f| f.1).collect())
+                    } else {
+                        V::Map(fields)
+                    }
+                }
+                0 | 1 => weird(&mut x, if pool == 0 { d.clone() } else { n.clone() }),
+                _ => {
+                    let e = match x.next() % 6 {
+                        0 => V::Integer(i64::MAX.into()),
+                        1 => V::Integer(i64::MIN.into()),
+                        2 => V::Integer(((x.next() % 200) as i64 - 100).into()),
+                        3 => V::Float(2.0),
+                        _ => V::Integer(3.into()),
+                    };
+                    let pr = match x.next() % 5 {
+                        0 => V::Integer((-5i64).into()),
+                        1 => V::Integer(u64::MAX.into()),
+                        2 => V::Integer(0.into()),
+                        _ => V::Integer(((x.next() % 50) as i64).into()),
+                    };
+                    let mut fields = vec![
+                        (V::Text("significand".into()), weird(&mut x, n.clone())),
+                        (V::Text("exponent".into()), weird(&mut x, e)),
+                        (V::Text("precision".into()), weird(&mut x, pr)),
+                    ];
+                    match x.next() % 8 {
+                        0 => fields.push((V::Text("exponent".into()), V::Integer(1.into()))),
+                        1 => {
+                            fields.remove(1);
+                        }
+                        2 => fields.swap(0, 2),
+                        3 => fields.push((V::Text("more".into()), V::Integer(1.into()))),
+                        _ => {}
+                    }
+                    if x.next() % 3 == 0 {
+                        V::Array(fields.into_iter().map(|f| f.1).collect())
+                    } else {
+                        V::Map(fields)
+                    }
+                }
+            };
+            env.emit_u64("shape", x.0 % 1000);
+            macro_rules! tok {
+                ($T:ty, $canon:expr, $put:expr) => {
+                    match tree.deserialized::<$T>() {
+                        Ok(v) => {
+                            let c: Result<(), String> = $canon(&v);
+                            if let Err(e) = c {
+                                note(env, "medium.noncanonical", format!("token tree {:?}: decoder constructed a non-canonical value: {}", tree, e));
+                            }
+                            env.emit_u64("decoded", 1);
+                            $put(v);
+                        }
+                        Err(_) => env.emit_u64("decoded", 0),
+                    }
+                };
+            }
+            match pool {
+                0 => tok!(UBig, |v: &UBig| canon_int(v.as_ibig()), |v| {
+                    w.u[dst] = v;
+                    env.res(Pool::U, dst)
+                }),
+                1 => tok!(IBig, canon_int, |v| {
+                    w.i[dst] = v;
+                    env.res(Pool::I, dst)
+                }),
+                2 => tok!(FBin, canon_fbig, |v: FBin| {
+                    if float_ok(&v) {
+                        w.f[dst] = v;
+                        env.res(Pool::F, dst)
+                    }
+                }),
+                3 => tok!(FDec, canon_fbig, |v: FDec| {
+                    if float_ok(&v) {
+                        w.d[dst] = v;
+                        env.res(Pool::D, dst)
+                    }
+                }),
+                4 => tok!(RBig, canon_rbig, |v| {
+                    w.r[dst] = v;
+                    env.res(Pool::R, dst)
+                }),
+                _ => tok!(Relaxed, canon_relaxed, |v| {
+                    w.x[dst] = v;
+                    env.res(Pool::X, dst)
+                }),
+            }
+        }
         // ---------------- floats with extreme exponent / precision through the binary media (cheap: no arithmetic)
         "bigexp" => {
             let sig = IBig::from(op.a as i32 * 2 + 1) * if op.b & 1 == 1 { Sign::Negative } else { Sign::Positive };
@@ -553,3 +688,14 @@ fn float_ok<R: Round, const B: Word>(x: &FBig<R, B>) -> bool {
 
 #[allow(dead_code)]
 fn _s(_: Sign) {}
+
+/// tiny local generator for the token trees (derived from the op's scalars, so the op list stays the replay)
+struct Rng64(u64);
+impl Rng64 {
+    fn next(&mut self) -> u64 {
+        self.0 ^= self.0 << 13;
+        self.0 ^= self.0 >> 7;
+        self.0 ^= self.0 << 17;
+        self.0
+    }
+}
